@@ -112,6 +112,25 @@ def run(prog: Program, res: Result, tier: str) -> None:
     else:
         res.bad("X-FORMAT", "atom line layout", w.loc(), f"{inst}: not found",
                 instance=inst)
+    # the text reaches the parser as ONE stream: str.splitlines() also splits
+    # at \x0b \x0c \x1c-\x1e \x85 \u2028 \u2029, which may occur in a comment
+    fx = geo.methods.get("from_xyz")
+    inst = "from_xyz hands the text to the parser as a stream"
+    if fx is None:
+        res.unrecognised("X-FORMAT", inst, r.loc(), "Geometry.from_xyz vanished")
+    else:
+        ft = ast.unparse(fx.node) + ast.unparse(r.node)
+        if ".splitlines(" in ft:
+            res.bad("X-FORMAT", "from_xyz splits the text with splitlines()",
+                    fx.loc(), f"{inst}: str.splitlines() breaks a comment "
+                    "line that contains \\x0b, \\x0c, \\x1c-\\x1e, \\x85, "
+                    "\\u2028 or \\u2029 into several lines; skiprows then "
+                    "stops inside the comment", instance=inst)
+        elif "io.StringIO(" in ft or "StringIO(" in ft:
+            res.ok("X-FORMAT", inst, fx.loc())
+        else:
+            res.unrecognised("X-FORMAT", inst, fx.loc(),
+                             "neither io.StringIO nor splitlines found")
     inst = "np.loadtxt(comments=None)"
     if "comments" in kw and norm(kw["comments"]) == "None":
         res.ok("X-FORMAT", inst, r.loc(load))
